@@ -39,6 +39,7 @@ namespace smt
 #ifdef PARALLELIZE
         t_mtxs.resize(vals.size());
 #endif
+        ORATIO_VERIF_HOOK(new_lra_var(this, id));
         return id;
     }
 
